@@ -421,11 +421,19 @@ func c13RunCase(cs c13Case, seed int64) c13Verdict {
 		}
 		done := make(chan struct{})
 		go func() { wg.Wait(); close(done) }()
-		select {
-		case <-done:
-			return true
-		case <-time.After(60 * time.Second):
-			return false
+		// backstop on progress (every single call is already bounded by the per-call hang verdict)
+		last, lastChange := int64(-1), time.Now()
+		for {
+			select {
+			case <-done:
+				return true
+			case <-time.After(2 * time.Second):
+				if n := atomic.LoadInt64(&v.Ops); n != last {
+					last, lastChange = n, time.Now()
+				} else if time.Since(lastChange) > 100*time.Second {
+					return false
+				}
+			}
 		}
 	}
 	// phase 0: fault-free warm-up
